@@ -107,6 +107,9 @@ def main(tier, replay=None):
                 % (5 if tier == "quick" else 7))
     if not _r.ok:
         raise common.MachineryError("MC_Compiler violated: %s" % _r.violated)
+    # direction spec -> code: the same complete space (one declaration less), every program replayed into the parser
+    from . import smallscope as _ss
+    _ss.run(rep, tier, ("accepted-an-invalid-schema", "rejected-a-valid-schema", "raise"))
     nbase = 120 if tier == "quick" else 2500
     per = 8 if tier == "quick" else 10
     traces, metas = [], []
@@ -115,7 +118,8 @@ def main(tier, replay=None):
         for k in range(nbase):
             rng = random.Random("c08/%d/%d" % (seed, k))
             base, _ = gen.rand_case(seed, 90000 + k, max_bits=rng.choice([60, 300, 1500]),
-                                    p_enum_nonzero_first=0.1, consts=True)
+                                    p_enum_nonzero_first=0.1, consts=True,
+                                    lib_as=rng.choice([None, None, "Lb", "lb_x"]))
             # syntax the statement of C08 does not mention but the grammar has (modelled as what the code
             # does): the deprecated typedef spelling, the proto line after definitions, a second proto line
             # (the last one names the proto, also for importers), yes/no booleans
@@ -134,6 +138,17 @@ def main(tier, replay=None):
             if rng.random() < 0.3:
                 mainf.insert(0, {"d": "proto", "name": "earlier_name"})
             variants = [("valid", base, "unchanged", False), ("valid-unusual-syntax", b2, "typedef / late proto line", False)]
+            # an aliased import is registered under its alias: the imported file's own proto name stays free
+            imps_ = [i for i, x in enumerate(base["files"][base["main"]]) if x["d"] == "import" and x.get("as")]
+            if imps_:
+                b3 = _copy.deepcopy(base)
+                m3 = b3["files"][b3["main"]]
+                own = m3[imps_[0]]["file"]
+                item = rng.choice([{"d": "const", "name": own, "v": gen.lit(1)},
+                                   {"d": "message", "name": own, "ext": False, "body": []},
+                                   {"d": "alias", "name": own, "t": {"k": "uint", "n": 7}}])
+                m3.insert(rng.choice([imps_[0], imps_[0] + 1]), item)
+                variants.append(("valid-aliased-import", b3, "the imported proto's own name is used by a %s" % item["d"], False))
             rules = rng.sample(inject.CATALOGUE, per)
             for rule in rules:
                 got = inject.inject(base, rule, rng)
